@@ -126,3 +126,10 @@ func verif_lemma_rt_cell(buf []byte, v Cell) {
 	r := readCell(buf)
 	verif_assert(r == v)
 }
+
+func verif_lemma_rt_string(buf []byte, v string) {
+	writeString(buf, v)
+	r := readString(buf)
+	verif_assert(len(r) == len(v))
+	verif_assert(verif_forall(0, len(v), func(i int) bool { return r[i] == v[i] }))
+}
